@@ -102,6 +102,7 @@ EXPECTED_PROBES = [
     "probe.t_active_set_changed", "probe.t_resubscribed", "probe.l_rebalance_multi", "probe.l_retention_expired",
     "probe.l_commit_smaller", "probe.l_churn_during_poll", "probe.l_bounce_inside_rebalance_delay",
     "probe.l_assignment_checked_at_quiescence", "probe.l_partially_stale_multi_partition_commit",
+    "probe.l_poll_reply_within_poll_latency_after_rebalance",
     "probe.l_poll_after_commit_returns_records", "fault.crash", "fault.pause",
 ]
 SHRINK_SKIP = ("klass", "mode")
@@ -224,6 +225,14 @@ def gen_log(rng):
         t = round(t + 0.00057, 6)
         ops.append({"t": t, "who": m, "kind": first, "bounce": True})
         ops.append({"t": round(t + gap, 6), "who": m, "kind": second, "bounce": True})
+    plat = rng.choice([0.0, 0.001, 0.001, 0.02])
+    for o in [o for o in ops if o.get("kind") in ("join", "leave")]:
+        if plat > 0 and rng.random() < 0.5:
+            # polls that arrive less than poll_latency before / just after the rebalance this membership change triggers
+            for _ in range(rng.randint(1, 3)):
+                t = o["t"] + rdelay - plat * rng.choice([0.1, 0.5, 0.9, -0.2])
+                if t >= 1e-4:
+                    ops.append({"t": round(t, 7), "who": rng.randrange(nm), "kind": "poll", "max": rng.choice([3, 10, 100])})
     ops.sort(key=lambda o: o["t"])
     for m in range(nm):
         if rng.random() < 0.7:
@@ -237,7 +246,7 @@ def gen_log(rng):
             "partitions": rng.randint(1, 6), "strategy": rng.choice(["range", "roundrobin", "sticky"]),
             "retention": ret, "retention_interval": rng.choice([0.01, 0.05]),
             "append_latency": rng.choice([0.0, 0.001, 0.004]), "read_latency": rng.choice([0.0, 0.0005]),
-            "rebalance_delay": rdelay, "poll_latency": rng.choice([0.0, 0.001, 0.02]),
+            "rebalance_delay": rdelay, "poll_latency": plat,
             "horizon": round(horizon * 1.5, 4), "ops": ops, "faults": faults}
 
 
@@ -1027,6 +1036,15 @@ class GMember(Entity):
             gen0 = g.generation
             floor = dict(g._committed_offsets.get(self.name, {}))   # committed offsets only grow: a later poll starts >= these
             recs = yield from g.poll(self.name, max_records=int(op.get("max", 10)))
+            snap = lw.poll_reply_owner.pop(id(recs), None)
+            if snap is not None and snap[0] is recs:
+                _, gen_r, owned, at = snap
+                foreign = sorted({r.partition for r in recs} - set(owned))
+                if foreign:
+                    raise Violation("C19/rebalance-partition/ConsumerGroup/poll-hands-out-records-of-a-partition-the-poller-no-longer-owns",
+                                    f"{self.name} polled; when the reply was computed at {at}ns (generation {gen_r}) it owned "
+                                    f"{owned}, but the reply carries records of partition(s) {foreign} which belong to "
+                                    f"{ {p: [n for n, ps in g.assignments.items() if p in ps] for p in foreign} } now")
             for r in recs:
                 if r.offset < floor.get(r.partition, 0):
                     raise Violation("C19/committed-offsets-monotonic/ConsumerGroup/record-below-committed-offset-handed-out-again",
@@ -1142,6 +1160,10 @@ class LogWorld:
         self.last_change = None
         self.bounces = self.quiescent_checks = 0
         self.partially_stale_commits = self.polls_after_commit = 0
+        self.poll_reply_owner = {}       # id(reply list) -> (list, generation, partitions owned by the poller, instant)
+        self.poll_lat_ns = int(_lat(sc.get("poll_latency", 0.001)) * 1e9)
+        self.last_rebalance_ns = 0
+        self.poll_straddles_rebalance = 0
         self.rebalances_multi = 0
         self.joined = self.churn_during_poll = self.polled_records = self.commit_smaller = self.expired = 0
 
@@ -1181,6 +1203,15 @@ class LogWorld:
                 self.first_kept[pid] = p.high_watermark
         g = self.group
         now = ev.time.nanoseconds
+        if ev.target is g and ev.event_type == "Poll" and isinstance(ev, ProcessContinuation):
+            # the poll reply is computed (and its future resolved) in this event: the poller's partitions right now
+            name = ev.context.get("consumer_name")
+            fut = ev.context.get("reply_future")
+            if fut is not None and fut.is_resolved:
+                recs = fut.value        # the very list object the poller will receive
+                self.poll_reply_owner[id(recs)] = (recs, g.generation, list(g.assignments.get(name, [])), now)
+            if now - self.last_rebalance_ns <= self.poll_lat_ns and self.last_rebalance_ns > 0:
+                self.poll_straddles_rebalance += 1
         if ev.target is g and ev.event_type in ("Join", "Leave") and not isinstance(ev, ProcessContinuation):
             self.rebalance_due = max(self.rebalance_due, now + self.rdelay_ns + US)
             self.membership_dirty = True
@@ -1191,6 +1222,7 @@ class LogWorld:
             self.last_change = (name, ev.event_type, now)
         if g.generation != self.gen_seen:
             self.gen_seen = g.generation
+            self.last_rebalance_ns = now
             self.check_assignment()
         if self.membership_dirty and now > self.rebalance_due:
             # every rebalance that was requested has run: the assignment must partition the partition set
@@ -1304,6 +1336,7 @@ def run_log(sc):
     counters = {"probe.l_rebalance_multi": int(lw.rebalances_multi > 0), "probe.l_retention_expired": int(lw.expired > 0),
                 "probe.l_commit_smaller": smaller, "probe.l_churn_during_poll": int(lw.churn_during_poll > 0),
                 "probe.l_bounce_inside_rebalance_delay": int(lw.bounces > 0),
+                "probe.l_poll_reply_within_poll_latency_after_rebalance": int(lw.poll_straddles_rebalance > 0),
                 "probe.l_partially_stale_multi_partition_commit": int(lw.partially_stale_commits > 0),
                 "probe.l_poll_after_commit_returns_records": int(lw.polls_after_commit > 0),
                 "probe.l_assignment_checked_at_quiescence": int(lw.quiescent_checks > 0),
